@@ -473,12 +473,11 @@ func (p *parser) newArithmeticExpr(l, r *ast.Node, op Item) *ast.Node {
 }
 
 func (p *parser) newAttrExpr(obj, attr *ast.Node) *ast.Node {
-	pos := p.yyParser.lval.item.PositionRange()
-
+	// an attribute expression starts where its object starts
 	return ast.WrapAttrExpr(&ast.AttrExpr{
 		Obj:   obj,
 		Attr:  attr,
-		Start: p.posCache.LnCol(pos.Start),
+		Start: ast.NodeStartPos(obj),
 	})
 }
 
